@@ -176,6 +176,10 @@ func TestSim(t *testing.T) {
 			runSeed, _ = strconv.ParseUint(rs, 10, 64)
 		}
 		tape := simkit.NewTape(runSeed)
+		if outPath != "" {
+			// which run is executing: read by bin/check if the process is aborted by the runtime
+			os.WriteFile(outPath+".cur", []byte(fmt.Sprintf("%d %d", i, runSeed)), 0644)
+		}
 		var o simkit.Outcome
 		t.Run(fmt.Sprintf("w%d-r%d", worker, i), func(st *testing.T) {
 			o = simkit.Execute(st, p, tier, tape, isKnown, false, nil)
@@ -302,8 +306,13 @@ func doReplay(t *testing.T, p *simkit.Prop, path string) {
 		return false
 	}
 	var o simkit.Outcome
+	tape := simkit.ReplayTape(rf.RunSeed, rf.Tape)
+	if rf.ProcessAbort {
+		// the recorded run killed the process: there is no recorded tape, the run seed regenerates it
+		tape = simkit.NewTape(rf.RunSeed)
+	}
 	t.Run("replay", func(st *testing.T) {
-		o = simkit.Execute(st, p, rf.Tier, simkit.ReplayTape(rf.RunSeed, rf.Tape), isKnown, false, rf.Param)
+		o = simkit.Execute(st, p, rf.Tier, tape, isKnown, false, rf.Param)
 	})
 	res := map[string]interface{}{"expected_oracle": rf.Oracle, "expected_signature": rf.Signature, "expected_trace_hash": rf.TraceHash}
 	if o.HarnessErr != "" {
